@@ -11,6 +11,12 @@ VERIF = os.path.dirname(os.path.dirname(os.path.abspath(__file__)))
 BASELINE_OFF = ("cd /repo && cargo nextest run --workspace --no-fail-fast --test-threads 8 --offline "
                 "|| (cd /repo && cargo test --workspace --no-fail-fast --offline)")
 
+KANI_TB = ("Trusted: Kani 0.68/CBMC 6.11 (bit-precise, overflow checks on); rustc/Kani compilation of the real crates; "
+           "stubs listed in the evidence (global chain-type accessors replaced by an arbitrary per-harness value, alloc::fmt::format, hash finalisation where stated); ")
+VERUS_TB = ("Trusted: Verus 0.2026.09.13 + Z3, vstd lemmas; the unit's prelude (spec functions and every external_body/assume_specification item, counted by a scan on each run); "
+            "the extraction transformations T1-T6 listed in DESIGN 2.2 (source path, line span and SHA-256 of each extracted item are in the evidence); ")
+
+
 # id -> (level text, level note (trusted base), technique, design_ref)
 CLAIMS = {
     "C07": (
@@ -25,41 +31,22 @@ CLAIMS = {
         "6 C07"),
 }
 
-CLAIMS["C11"] = (
-    "Panic-freedom, bounded pre-allocation and loop progress of the real decoders, decided by Kani on the "
-    "unmodified function bodies compiled in place: every byte string of length 0..=N (N per decoder, symbolic "
-    "length so every truncation offset) is fed to MerkleProof::read, Segment::read/SegmentProof::read and the "
-    "fixed-size wire types; each index, unwrap, slice and with_capacity is a proof obligation (with_capacity is "
-    "stubbed by a checker asserting request <= 100_000 + 64*input_len bytes). The stateless validators on decoded "
-    "values (Segment::validate and what it calls) are covered by a BOUNDED stand-in (mmr sizes and identifier "
-    "ranges enumerated, stated in the evidence) and are never counted as proved.",
-    "Trusted: KReader models BinReader over a slice; alloc::fmt::format stubbed; Kani checks arithmetic with debug "
-    "semantics and stops at a wrap (wrap sites are listed in the evidence, behaviour beyond them is unexplored); "
-    "prunable segments with a CRoaring bitmap, zip handling, JSON bodies, Codec timing are outside.",
-    "Kani full-domain harnesses on the real crates (complete for fixed-length decoders) + bounded harnesses for validators",
-    "6 C11")
-
-KANI_TB = ("Trusted: Kani 0.68/CBMC 6.11 (bit-precise, overflow checks on); rustc/Kani compilation of the real crates; "
-           "stubs listed in the evidence (global chain-type accessors replaced by an arbitrary per-harness value, alloc::fmt::format, hash finalisation where stated); ")
-VERUS_TB = ("Trusted: Verus 0.2026.09.13 + Z3, vstd lemmas; the unit's prelude (spec functions and every external_body/assume_specification item, counted by a scan on each run); "
-            "the extraction transformations T1-T6 listed in DESIGN 2.2 (source path, line span and SHA-256 of each extracted item are in the evidence); ")
-
-CLAIMS["C01"] = ("Only the scalar side of the balance equation is decided: for every header the per-block overage is exactly -60 grin, total_overage is "
-    "-(height[+1])*REWARD in the stated height range, reward(fee) saturates (Kani, full domain). That grin's code assembles the group equation "
-    "(commit sums, kernel sums, offsets) and the 'after any accepted history' clause are NOT decided (libsecp256k1 FFI / history).",
-    KANI_TB + "everything cryptographic and every history clause is outside.", "Kani full-domain harness on the real functions", "6 C01")
-CLAIMS["C02"] = ("Deductive proof (Verus) of the unspent-leaf bitmap algebra on the real LeafSet code: add/remove change exactly one position, rewind(cutoff, rm) yields "
-    "(old restricted to <= cutoff) union rm as a whole-view postcondition, discard restores the last flushed bitmap. The chain-level statement over forks, "
-    "reorganisations, restart and compaction is a history property and is not decided.",
-    VERUS_TB + "croaring::Bitmap is C code: its operations are assumed set operations; positions < 2^32-1.", "Verus contracts on extracted real functions over an abstract bitmap", "6 C02")
+CLAIMS["C11"] = ('Panic-freedom, bounded pre-allocation and loop progress of the real decoders. UNBOUNDED (Verus on extracted text, abstract reader with a ghost remaining-bytes count): read_segment_item_count / read_segment_positions, MerkleProof::read, Vec<T>::read -- no panic for any declared count and any input length, every with_capacity within 100_000 + 64*remaining bytes, results consume the stated number of bytes, the greedy Vec loop terminates. COMPLETE for inputs up to N bytes (Kani on the unmodified functions, symbolic length so every truncation offset): MerkleProof::read/from_hex, Segment::read, RangeProof/Commitment/Signature read, BinReader::read_fixed_bytes, read_multi. BOUNDED stand-ins, never counted as proved: Segment::validate and callees (mmr sizes and identifiers enumerated), util::from_hex on short strings.',
+    VERUS_TB + KANI_TB + "Kani checks arithmetic with debug semantics and stops at a wrap (wrap sites listed in the evidence; behaviour beyond them unexplored); prunable segments with a CRoaring bitmap, zip handling, JSON bodies, Codec timing are outside.",
+    'Verus loop contracts on extracted readers + Kani full-domain harnesses on the real crates + bounded harnesses for validators', "6 C11")
+CLAIMS["C01"] = ("Proof-level (Verus, unbounded) that grin's Rust code ASSEMBLES AND ENFORCES the balance equation over an abstract additive group: sum_commitments(overage) = outputs - inputs + overage*H for both signs of the overage and fails on i64::MIN; sum_kernel_excesses = (kernels, kernels + offset*G); verify_kernel_sums accepts iff the two sides are equal; Transaction::validate / TransactionBody::validate_read / verify_features / Block::validate return Ok only if every listed rule was checked with the right operands (fee as overage for a tx, minus the subsidy and total-minus-previous offset for a block, coinbase check, lock heights, NRD rule); pipe::verify_block_sums stores exactly the sums verified over (parent's stored sums + block); header overage == -60 grin, total_overage, reward (Kani, full domain). NOT decided: that libsecp256k1 implements the group, range proofs and signatures (cryptographic assumptions), and the 'after any accepted history' clause (stored sums vs full state across reorgs).",
+    VERUS_TB + KANI_TB + "all commitment arithmetic is libsecp256k1 behind FFI: modelled by assumed group contracts; callees of the validators are uninterpreted predicates.",
+    'Verus contracts on extracted real functions over an abstract group + conjunction-of-checks contracts; Kani for the scalar side', "6 C01")
+CLAIMS["C02"] = ("Proof-level (Verus) on the real code of (a) the unspent-leaf bitmap algebra: LeafSet add/remove change exactly one position, rewind(cutoff, rm) yields (old restricted to <= cutoff) union rm as a whole-view postcondition, discard restores the last flushed bitmap; (b) the single-input / single-output admission decision of UTXOView: validate_input returns (out, pos) only if the index maps the commitment to pos, the output MMR holds out at pos-1 and out's commitment is the input's; it fails when the commitment is not indexed or the leaf is gone; validate_output fails on an indexed, still-present duplicate. The chain-level statement over forks, reorganisations, restart and compaction is a history property and is not decided.",
+    VERUS_TB + "croaring::Bitmap is C code: its operations are assumed set operations; the LMDB index and output MMR are uninterpreted functions; positions < 2^32-1; index positions >= 1.",
+    'Verus contracts on extracted real functions over abstract bitmap / index / MMR views', "6 C02")
 CLAIMS["C03"] = ("One clause only: the head can move only to strictly more cumulative work -- has_more_work(h, tip) <=> h.total_difficulty > tip.total_difficulty for all u64 pairs, the derived "
     "ordering on Difficulty is the numeric one, Tip::from_header copies height/prev/difficulty (Kani, full domain). Delivery-order independence and head = argmax over accepted blocks are "
     "whole-history properties through LMDB and are not decided.",
     KANI_TB + "header hash stubbed to a constant.", "Kani full-domain harness on the real functions", "6 C03")
-CLAIMS["C04"] = ("Proof-level (Kani, full domain of u64 heights x 4 chain types) for the header version schedule (in 1..=5, monotone, equals the table), damp/clamp bounds, "
-    "secondary_pow_ratio, graph_weight shift safety, and the wtema retarget: total on any two-header window, never below the minimum, exactly the floor formula (hence bounded change), "
-    "and next_difficulty uses wtema from version 5. validate_header's conjunction of checks, the DMA window (61 headers) and the header-MMR root are not decided here.",
-    KANI_TB + "difficulty <= 2^40 and block time <= 2^20 s in the wtema harness (stated ranges).", "Kani full-domain harnesses on the real functions", "6 C04")
+CLAIMS["C04"] = ("Proof-level: (Verus, on extracted text) validate_header returns Ok only if ALL header rules hold -- height = parent+1, scheduled version, strictly later timestamp, MMR counts grew, weight lower bound, and unless SKIP_POW: PoW verifies, cumulative difficulty strictly above the parent's, achieved difficulty >= the increase, increase == network retarget over the parent's ancestors, matching secondary scaling before version 5; UntrustedBlockHeader::read accepts only headers within the future-time limit with scheduled version, admissible edge bits, right proof size and MMR sizes within the per-height weight bound; the wtema retarget is total on its stated domain, deterministic, never below the minimum, exactly max(min, floor(last*14400/(14340+dt))) hence bounded per block, and next_difficulty selects it exactly for versions >= 5. (Kani, all u64 heights x 4 chains) version schedule in 1..=5, monotone, equals the table; damp/clamp bounds; secondary ratio; graph_weight shift safety. NOT decided: the DMA window rule, PoW itself (C05), the header-MMR root commitment, and mutation-of-a-valid-chain as a history statement.",
+    VERUS_TB + KANI_TB + "helpers of the validators are uninterpreted; decoded heights < 2^48 for the weight-bound multiplication.",
+    'Verus conjunction-of-checks + arithmetic contracts on extracted real functions; Kani full-domain harnesses', "6 C04")
 CLAIMS["C05"] = ("Proof-level (Kani, complete per edge_bits) that proofs survive serialisation bit-exactly: for every byte string of the right length, whatever Proof::read accepts re-encodes to the "
     "same bytes (so non-zero padding bits are refused) and every nonce fits edge_bits; decode(encode(p)) == p for all nonce vectors; edge_bits 0 and >63 refused. One harness per edge_bits "
     "(quick: 10 representative values, thorough: all 63) and proof sizes 42 and 8. Cycle verification (the five graph variants) is NOT yet under contract.",
@@ -75,9 +62,9 @@ CLAIMS["C10"] = ("Proof-level (Kani, complete) for the fixed-size consensus type
 CLAIMS["C12"] = ("BOUNDED stand-in only (labelled bounded, not proved): cut_through on the real code removes exactly the matched spend pairs -- per commitment value min(cin, cout) pairs are cut, the "
     "rest kept, failure iff a duplicate remains -- for all inputs with <= 3 inputs and <= 3 outputs over 8 commitment values. aggregate/deaggregate/hydration are not yet under contract.",
     KANI_TB + "bounded: slice lengths <= 3.", "Kani bounded harness with an executable multiset oracle", "6 C12")
-CLAIMS["C13"] = ("BOUNDED stand-in only: block-level absolute lock heights (refused iff some height-locked kernel has lock_height > block height), the NRD/header-version rule and body lock_height == max, "
-    "for all blocks with <= 3 kernels of arbitrary variants; NRDRelativeHeight range is proved for all u64 (C10 unit). Coinbase maturity (needs LMDB), per-fork evaluation and the pool path are not decided.",
-    KANI_TB + "bounded: <= 3 kernels.", "Kani bounded harness on the real functions", "6 C13")
+CLAIMS["C13"] = ('Proof-level (Verus, extracted text): with the feature on, an NRD kernel is refused iff the same excess has an index entry fewer than relative_height blocks below the block being applied, an accepted one is recorded, other variants are untouched (txhashset::apply_kernel_rules); NRDRelativeHeight accepts exactly 1..=10080 (Kani, all u64, in the C10 unit). BOUNDED stand-in (<= 3 kernels): Block::verify_kernel_lock_heights refuses iff some height-locked kernel has lock_height > block height, NRD kernels need the flag and header version >= 4, body lock_height == max. Coinbase maturity (iterator chain over LMDB lookups), per-fork maintenance of the NRD index during rewind and the pool path are not decided.',
+    VERUS_TB + KANI_TB + "the NRD index is an uninterpreted most-recent-entry function.",
+    'Verus contract on the extracted NRD rule + Kani bounded harness for block lock heights', "6 C13")
 CLAIMS["C14"] = ("Two clauses, proof-level (Kani): for ALL input/output/kernel counts and all chain types, a body admitted by the transaction weight rule assembles with the coinbase into a block within the "
     "block weight limit (weight formula, AsTransaction/AsLimitedTransaction/AsBlock rules); the minimum-fee comparison uses shifted_fee == (sum of kernel fees) >> max fee_shift and weight * base. "
     "Joint validity of the pool against the chain, reconciliation, eviction and reorg handling are history properties and are not decided.",
@@ -103,7 +90,7 @@ CLAIMS["C16"] = ("Arithmetic, proof-level (Verus, unbounded): on the real Segmen
     "at mmr_size - 1; capacity/offset/unpruned size as specified. Uses the C07 contracts modularly (included and re-verified). Tamper-resistance of Segment::validate is covered only by the bounded "
     "C11 no-panic unit; Segmenter/Desegmenter assembly, prunable segments with a bitmap, and 'never finalises a wrong state' are not decided.",
     VERUS_TB, "Verus contracts on extracted real functions, reusing the C07 position-arithmetic proofs", "6 C16")
-BOUNDED_ONLY = {"C12", "C13"}
+BOUNDED_ONLY = set()
 
 NOT_APPLICABLE = {
     "C09": "quantifies over crash points and restart recovery through LMDB + files; a function contract speaks about one call that returns, and neither Kani nor Verus can execute LMDB/std::fs (DESIGN 7)",
